@@ -173,6 +173,20 @@ func RecordAlphabet(md protoreflect.MessageDescriptor, rich bool) []Rec {
 			}
 			unk := protowire.AppendVarint(tagBytes(3, protowire.VarintType), 9)
 			add(fd, "entry+unknown-subfield", "{k1,?3,v1}", entry(K(k1), unk, V(v1)))
+			// unknown sub-fields of the other wire types; a length-delimited one whose payload reads as a different
+			// key and value; the same with non-minimal (padded) tags; a multi-byte field number; padded key / value tags
+			inner := append(K(k0), V(v0)...)
+			unkB := protowire.AppendBytes(tagBytes(3, protowire.BytesType), inner)
+			add(fd, "entry+unknown-bytes-subfield", "{k1,v1,?3:bytes(k0,v0)}", entry(K(k1), V(v1), unkB))
+			add(fd, "entry+unknown-bytes-subfield", "{?3:bytes(k0,v0),k1,v1}", entry(unkB, K(k1), V(v1)))
+			unkBP := append(padVarint(tagBytes(3, protowire.BytesType)), protowire.AppendBytes(nil, inner)...)
+			add(fd, "entry+unknown-subfield-padded-tag", "{k1,v1,?3(padded-tag):bytes(k0,v0)}", entry(K(k1), V(v1), unkBP))
+			add(fd, "entry+unknown-subfield-padded-tag", "{k1,?3(padded-tag):varint,v1}", entry(K(k1), append(padVarint(tagBytes(3, protowire.VarintType)), 9), V(v1)))
+			add(fd, "entry+unknown-fixed-subfields", "{k1,?4:fixed32,?5:fixed64,v1}", entry(K(k1), protowire.AppendFixed32(tagBytes(4, protowire.Fixed32Type), 7), protowire.AppendFixed64(tagBytes(5, protowire.Fixed64Type), 7), V(v1)))
+			grp := append(append(tagBytes(6, protowire.StartGroupType), inner...), tagBytes(6, protowire.EndGroupType)...)
+			add(fd, "entry+unknown-group-subfield", "{k1,?6:group(k0,v0),v1}", entry(K(k1), grp, V(v1)))
+			add(fd, "entry+unknown-subfield-wide-number", "{k1,v1,?300000:bytes(k0,v0)}", entry(K(k1), V(v1), protowire.AppendBytes(tagBytes(300000, protowire.BytesType), inner)))
+			add(fd, "entry-padded-tags", "{k1(padded-tag),v1(padded-tag)}", entry(append(padVarint(kt), k1...), append(padVarint(vt), v1...)))
 			if rich {
 				for j := range kp {
 					add(fd, "entry", fmt.Sprintf("{%s:v1}", kl[j]), entry(K(kp[j]), V(v1)))
